@@ -3,7 +3,7 @@
    the resolve handler's loop running on the Region model's find_region_by_key, from any cache state, against any PD
    whose answers are sound (pd may depend on time: the layout changes under the loop). *)
 From Verif Require Import Base.Lex.
-From Verif Require Region.Model Region.ProofsContains Region.Props.
+From Verif Require Region.Model Region.ProofsContains.
 From Verif Require Import Pipelined.Model Pipelined.ProofsBuf Pipelined.ProofsDyn.
 
 Module R := Region.Model.
@@ -44,7 +44,10 @@ Lemma handler_loc_covers pd budget batch fuel :
 Proof.
   intros Hg Hp. induction n as [|n IH]; intros t c start rend served; cbn [handler_loc]; [discriminate|].
   destruct (R.find_region_by_key pd budget fuel t c start false) as [[[r|e] c'] t'] eqn:Ef; [|discriminate].
-  pose proof (Region.Props.C09_contains pd budget fuel t c start false r c' t' Hg Hp Ef) as Hc. cbn in Hc.
+  (* find_region_by_key_holds is the lemma Region.Props.C09_contains restates (Props files of other areas are not imported:
+     they change while their owners work) *)
+  pose proof (Region.ProofsContains.find_region_by_key_holds pd budget Hg Hp fuel t c start false r c' t' Ef) as Hc.
+  unfold Region.ProofsContains.holds in Hc.
   apply rgn_of_contains in Hc. set (g := rgn_of r) in *.
   destruct (snd g) as [e|] eqn:Es.
   - destruct (lex_leb rend e) eqn:Ele.
